@@ -3,12 +3,14 @@
    (a) unit lines (one output line each):
          calc <x>     -> "calc <bits>" | "calc none"
          init <n>     -> "init n=<n> bits=<b> mask=<m> state=<s>" | "init none"
+         reinit <n1> <a|n> <n2> <a|n> ... -> "reinit n=.. bits=.. mask=.. state=.. ; ..." | "reinit none"
          preset <n> <k> [w] -> "preset n=.. k=.. reg=.. pre=.. dec=0 state=.. released=.. rets=0 q=.." | "preset none"
    (b) trace blocks (one output line per block): "ok <events>" or "FAIL <line-in-block> <reason>"
          begin <nthreads> <N>
          call <t> <wait|dec>
          tick <t> <m|c> <label> <val|-> J <state> <n> <bits> <mask> <k> <q..>
          ret <t> <v>
+         obs J <state> <n> <bits> <mask> 0          (the fields right after a jcinit; compared, no step)
          end *)
 open JcModel
 let zs = Zio.z_of_string and sz = Zio.string_of_z
@@ -49,6 +51,17 @@ let () =
          (match jc_init (zs n) with
           | Some f -> Printf.printf "init n=%s bits=%s mask=%s state=%s\n" (sz f.f_n) (sz f.f_bits) (sz f.f_mask) (sz f.f_state)
           | None -> print_endline "init none")
+     | "reinit" :: spec when not !inblock ->
+         (* object lifecycle: the init fields are a function of N only (jc_init), whatever the object held before and
+            whatever attr is *)
+         let rec go = function
+           | n :: _ :: r -> (match jc_init (zs n) with
+                             | Some f -> Some (Printf.sprintf "n=%s bits=%s mask=%s state=%s" (sz f.f_n) (sz f.f_bits) (sz f.f_mask) (sz f.f_state))
+                             | None -> None) :: go r
+           | _ -> [] in
+         let l = go spec in
+         if Stdlib.List.exists (fun x -> x = None) l then print_endline "reinit none"
+         else print_endline ("reinit " ^ Stdlib.String.concat " ; " (Stdlib.List.map (function Some x -> x | None -> "") l))
      | "preset" :: n :: k :: _ when not !inblock ->
          (* the wide-value scenario of harness/c07_unit.c: k threads register and fall asleep, the word is
             preset by N-1 (white-box, standing for N-1 decrements), thread k performs the final decrement,
@@ -91,6 +104,11 @@ let () =
           | None -> st := dummy; fail ("N = " ^ n ^ " is outside the representable range of the model"))
      | ["end"] -> inblock := false; (match !failed with Some m -> print_endline m | None -> Printf.printf "ok %d\n" !cnt)
      | _ when !failed <> None -> ()
+     | "obs" :: obs ->
+         (* words reported outside a POINT (the init fields on the return line of jcinit) *)
+         (match obs with
+          | "?" :: why -> fail (Stdlib.String.concat " " why)
+          | _ -> (match check_obs !st obs with Some m -> fail ("after (re-)initialisation: " ^ m) | None -> incr cnt))
      | "call" :: t :: o ->
          (match step !st (ni (int_of_string t), ECall (parse_op o)) with
           | Some s' -> st := s'; incr cnt
